@@ -7,6 +7,7 @@ pub fn dispatch(op: &str, case: &Value) -> Value {
         "from_until" => op_from_until(case),
         "version_header" => op_version_header(case),
         "path" => op_path(case),
+        "body" => op_body(case),
         _ => json!({"error": format!("unknown op {}", op)}),
     }
 }
@@ -135,4 +136,93 @@ fn op_path(case: &Value) -> Value {
         }
     }
     json!({"status": status, "variables_debug": vars, "handler_saw": handler_saw, "wire_status": wire_status})
+}
+
+// ---------------------------------------------------------------------------------- C11
+use dropshot::ApiEndpoint;
+use dropshot::StreamingBody;
+use dropshot::TypedBody;
+use dropshot::UntypedBody;
+use futures::StreamExt;
+use std::sync::atomic::AtomicUsize;
+use std::sync::atomic::Ordering;
+
+static SEEN_MAX: AtomicUsize = AtomicUsize::new(0);
+
+#[endpoint { method = PUT, path = "/untyped" }]
+async fn body_untyped(_rqctx: RequestContext<()>, body: UntypedBody) -> Result<HttpResponseOk<usize>, HttpError> {
+    let n = body.as_bytes().len();
+    SEEN_MAX.fetch_max(n, Ordering::SeqCst);
+    Ok(HttpResponseOk(n))
+}
+#[endpoint { method = PUT, path = "/streaming" }]
+async fn body_streaming(_rqctx: RequestContext<()>, body: StreamingBody) -> Result<HttpResponseOk<usize>, HttpError> {
+    let stream = body.into_stream();
+    tokio::pin!(stream);
+    let mut n = 0usize;
+    while let Some(chunk) = stream.next().await {
+        let chunk = chunk?;
+        n += chunk.len();
+        SEEN_MAX.fetch_max(n, Ordering::SeqCst);
+    }
+    Ok(HttpResponseOk(n))
+}
+#[endpoint { method = PUT, path = "/typed" }]
+async fn body_typed(_rqctx: RequestContext<()>, body: TypedBody<String>) -> Result<HttpResponseOk<usize>, HttpError> {
+    let n = body.into_inner().len() + 2;
+    SEEN_MAX.fetch_max(n, Ordering::SeqCst);
+    Ok(HttpResponseOk(n))
+}
+
+/// {"op":"body","chunks":[n..],"default":n,"override":n|null,"extractor":"untyped"|"streaming"|"typed"}
+fn op_body(case: &Value) -> Value {
+    let chunks: Vec<usize> = case["chunks"].as_array().unwrap().iter().map(|x| x.as_u64().unwrap() as usize).collect();
+    let default = case["default"].as_u64().unwrap() as usize;
+    let ovr = case["override"].as_u64().map(|x| x as usize);
+    let ext = case["extractor"].as_str().unwrap_or("untyped");
+    let mut e: ApiEndpoint<()> = match ext {
+        "streaming" => ApiEndpoint::from(body_streaming),
+        "typed" => ApiEndpoint::from(body_typed),
+        _ => ApiEndpoint::from(body_untyped),
+    };
+    e.request_body_max_bytes = ovr;
+    let mut api = ApiDescription::new();
+    api.register(e).unwrap();
+    let total: usize = chunks.iter().sum();
+    // payload: a JSON string for the typed extractor, plain bytes otherwise
+    let payload: Vec<u8> = if ext == "typed" && total >= 2 {
+        let mut p = vec![b'"'];
+        p.extend(std::iter::repeat(b'a').take(total - 2));
+        p.push(b'"');
+        p
+    } else {
+        vec![b'x'; total]
+    };
+    let mut writes: Vec<Vec<u8>> = vec![format!(
+        "PUT /{} HTTP/1.1\r\nHost: replay\r\nConnection: close\r\nContent-Type: application/json\r\nTransfer-Encoding: chunked\r\n\r\n",
+        ext
+    )
+    .into_bytes()];
+    let mut off = 0;
+    for c in &chunks {
+        if *c == 0 {
+            continue;
+        }
+        let mut w = format!("{:x}\r\n", c).into_bytes();
+        w.extend_from_slice(&payload[off..off + c]);
+        w.extend_from_slice(b"\r\n");
+        off += c;
+        writes.push(w);
+    }
+    writes.push(b"0\r\n\r\n".to_vec());
+    SEEN_MAX.store(0, Ordering::SeqCst);
+    let resp = crate::live::serve_raw(api, default, vec![writes]);
+    let seen_max = SEEN_MAX.load(Ordering::SeqCst);
+    match resp.into_iter().next().flatten() {
+        None => json!({"status": 0, "seen_max": seen_max}),
+        Some(r) => {
+            let seen: Value = if r.status == 200 { serde_json::from_slice(&r.body).unwrap_or(Value::Null) } else { Value::Null };
+            json!({"status": r.status, "seen": seen, "seen_max": seen_max, "body": String::from_utf8_lossy(&r.body)})
+        }
+    }
 }
